@@ -144,6 +144,119 @@ theorem cdn_view_fails (c : UInt16) : CdnCode.ofCode c = none ↔ 12 ≤ c.toNat
   unfold CdnCode.ofCode
   split <;> simp_all <;> omega
 
+/-! ### the same at the decoders: what a one-AVP body with the 16-bit code `x` decodes to, for every `x` -/
+
+/-- Message Type (attribute 0): the value named by the table for an assigned code, `UnknownMessageType(x)` carrying the
+    code for every other one; surplus octets are left alone -/
+theorem decode_messageType_code (x : UInt16) (rest : Bytes) :
+    (decodeAvp 0 : M Bytes DErr AVP) (be16 x ++ rest) =
+      match MessageType.ofCode x with
+      | some t => .ok (.messageType t) rest
+      | none => .err (.unknownMessageType x) rest := by
+  simp only [be16, List.cons_append, List.nil_append, decodeAvp]
+  show (readMessageType : M Bytes DErr AVP) _ = _
+  rw [readMessageType_cons, word16_be16]
+  cases MessageType.ofCode x <;> rfl
+
+/-- … accepted iff the code is one of the fourteen assigned ones -/
+theorem decode_messageType_accepts (x : UInt16) (rest : Bytes) :
+    (∃ a r, (decodeAvp 0 : M Bytes DErr AVP) (be16 x ++ rest) = .ok a r) ↔ x.toNat ∈ messageTypeCodes := by
+  rw [decode_messageType_code, ← messageType_accepts]
+  cases MessageType.ofCode x <;> simp
+
+/-- Proxy Authen Type (attribute 29): the named value for 0..5, rejected (`IncompleteAVP(29)`, the code's own error
+    for it) for every other code -/
+theorem decode_proxyAuthenType_code (x : UInt16) (rest : Bytes) :
+    (decodeAvp 29 : M Bytes DErr AVP) (be16 x ++ rest) =
+      match ProxyAuthenType.ofCode x with
+      | some t => .ok (.proxyAuthenType t) rest
+      | none => .err (.incompleteAVP 29) rest := by
+  simp only [be16, List.cons_append, List.nil_append, decodeAvp]
+  show (readProxyAuthenType : M Bytes DErr AVP) _ = _
+  rw [readProxyAuthenType_cons, word16_be16]
+  cases ProxyAuthenType.ofCode x <;> rfl
+
+theorem decode_proxyAuthenType_accepts (x : UInt16) (rest : Bytes) :
+    (∃ a r, (decodeAvp 29 : M Bytes DErr AVP) (be16 x ++ rest) = .ok a r) ↔ x.toNat ∈ proxyAuthenTypeCodes := by
+  rw [decode_proxyAuthenType_code, ← proxyAuthenType_accepts]
+  cases ProxyAuthenType.ofCode x <;> simp
+
+/-- Result Code (attribute 1) with an error field: whatever the raw result code `c`, the general error type `x`
+    decides — an unassigned one is `InvalidResultCodeErrorType(x)`, an assigned one is kept by name … -/
+theorem decode_resultCode_errorType (c x : UInt16) (rest : Bytes) :
+    (decodeAvp 1 : M Bytes DErr AVP) (be16 c ++ be16 x ++ rest) =
+      match rcErrorSpec x rest with
+      | .ok e r' => .ok (.resultCode c (some e)) r'
+      | .err e r' => .err e r'
+      | .fault f => .fault f := by
+  simp only [be16, List.cons_append, List.nil_append, decodeAvp]
+  show (readResultCode : M Bytes DErr AVP) _ = _
+  rw [readResultCode_cons_long, word16_be16, word16_be16]
+  cases rcErrorSpec x rest <;> rfl
+
+theorem decode_resultCode_errorType_accepts (c x : UInt16) :
+    (∃ a r, (decodeAvp 1 : M Bytes DErr AVP) (be16 c ++ be16 x) = .ok a r) ↔ x.toNat ∈ errorTypeCodes := by
+  have := decode_resultCode_errorType c x []
+  rw [List.append_nil] at this
+  rw [this, ← errorType_accepts]
+  unfold rcErrorSpec
+  cases ErrorType.ofCode x <;> simp
+
+/-- … and **the raw result code is kept whatever its value**, with or without an error field and message: two
+    payloads that differ only in the result code decode to values that differ only in the result code (both
+    rejected, or both accepted with the same error part and the same octets left) -/
+theorem resultCode_raw_kept_general (c c' : UInt16) (p : Bytes) :
+    (∀ e r, (decodeAvp 1 : M Bytes DErr AVP) (be16 c ++ p) = .err e r →
+        (decodeAvp 1 : M Bytes DErr AVP) (be16 c' ++ p) = .err e r) ∧
+    (∀ a r, (decodeAvp 1 : M Bytes DErr AVP) (be16 c ++ p) = .ok a r →
+        ∃ err, a = .resultCode c err ∧ (decodeAvp 1 : M Bytes DErr AVP) (be16 c' ++ p) = .ok (.resultCode c' err) r) := by
+  have key : ∀ k : UInt16, (decodeAvp 1 : M Bytes DErr AVP) (be16 k ++ p) =
+      (readResultCode : M Bytes DErr AVP) (be16 k ++ p) := fun k => by simp only [decodeAvp]; rfl
+  rw [key c, key c']
+  simp only [be16, List.cons_append, List.nil_append]
+  by_cases hp : p.length < 2
+  · rw [readResultCode_cons_short _ _ _ hp, readResultCode_cons_short _ _ _ hp, word16_be16, word16_be16]
+    refine ⟨fun e r h => (by cases h), fun a r h => ?_⟩
+    cases h
+    exact ⟨none, rfl, rfl⟩
+  · obtain ⟨x, y, q, rfl⟩ := exists_cons2 (s := p) (by omega)
+    rw [readResultCode_cons_long, readResultCode_cons_long, word16_be16, word16_be16]
+    cases rcErrorSpec (word16 x y) q with
+    | ok e r' =>
+      refine ⟨fun e' r h => (by cases h), fun a r h => ?_⟩
+      cases h
+      exact ⟨some e, rfl, rfl⟩
+    | err e r' => exact ⟨fun e' r h => h, fun a r h => (by cases h)⟩
+    | fault f => exact ⟨fun e' r h => (by cases h), fun a r h => (by cases h)⟩
+
+/-- the encoder writes the raw code back in front of whatever follows -/
+theorem resultCode_value_starts_with_code (c : UInt16) (e : Option (ErrorType × Option Bytes)) :
+    ∃ tail, (AVP.resultCode c e).value = be16 c ++ tail := by
+  cases e with
+  | none => exact ⟨[], by simp [AVP.value]⟩
+  | some p =>
+    obtain ⟨et, m⟩ := p
+    cases m with
+    | none => exact ⟨_, by simp [AVP.value]; rfl⟩
+    | some m => exact ⟨_, by simp [AVP.value]; rfl⟩
+
+/-- every named value's number is one of the assigned ones (no constructor can be forgotten in the `…_toCode_rfc` lists) -/
+theorem messageType_toCode_assigned (t : MessageType) : t.toCode.toNat ∈ messageTypeCodes :=
+  (messageType_accepts t.toCode).mp (by rw [messageType_ofCode_toCode]; rfl)
+theorem errorType_toCode_assigned (t : ErrorType) : t.toCode.toNat ∈ errorTypeCodes :=
+  (errorType_accepts t.toCode).mp (by rw [errorType_ofCode_toCode]; rfl)
+theorem proxyAuthenType_toCode_assigned (t : ProxyAuthenType) : t.toCode.toNat ∈ proxyAuthenTypeCodes :=
+  (proxyAuthenType_accepts t.toCode).mp (by rw [proxyAuthenType_ofCode_toCode]; rfl)
+
+/-- an assigned attribute type never answers "unknown AVP", whatever the payload -/
+theorem dispatch_never_unknown (t : UInt16) (h : t.toNat ≤ 39) (h20 : t.toNat ≠ 20) :
+    ¬ unknownAttr t := by
+  intro hu
+  obtain ⟨a, r, ha⟩ := dispatch_accepts t h h20
+  unfold unknownAttr at hu
+  rw [hu] at ha
+  simp at ha
+
 /-! non-vacuity: the tables are inhabited at and around their edges -/
 example : MessageType.ofCode 5 = none ∧ MessageType.ofCode 16 = some .setLinkInfo ∧ MessageType.ofCode 17 = none := by decide
 example : CdnCode.ofCode 11 = some .callNoFramingDetected ∧ CdnCode.ofCode 12 = none := by decide
